@@ -120,12 +120,77 @@ def level_profile(rng, dt, alts):
     return kind, prof[:10]
 
 
+def half_profile(rng, dt, alts):
+    """even number of voters, some alternative placed in the top k by exactly n/2 voters (not a strict majority:
+    quota floor(n/2)+1 and ceil(n/2) differ here)"""
+    m = len(alts)
+    base = rand_perm(rng, alts)
+    top = base[0]
+    d = rng.randint(1, min(m, 3))                  # depth at which `top` has collected exactly n/2
+    half = rng.randint(1, 30)
+    prof = []
+    left = half
+    while left > 0:
+        k = rng.randint(1, left)
+        left -= k
+        rest = rand_perm(rng, base[1:])
+        pos = rng.randint(0, d - 1)
+        p = rest[:pos] + [top] + rest[pos:]
+        prof.append((strictb(p, dt, rng, 0.0 if dt == 0 else 0.3) if dt == 0 else [[a] for a in p[: max(pos + 1, rng.randint(1, m))]], k))
+    left = half
+    while left > 0:                                # the other half ranks `top` last or (soi) not at all
+        k = rng.randint(1, left)
+        left -= k
+        rest = rand_perm(rng, base[1:])
+        if dt == 0 or not rest:
+            prof.append(([[a] for a in rest + [top]], k))
+        else:
+            prof.append(([[a] for a in rest[: rng.randint(1, len(rest))]], k))
+    rng.shuffle(prof)
+    return prof[:12]
+
+
+def last_depth_profile(rng, alts):
+    """soi: a strict majority is reached only at depth m, through the last position of complete ballots"""
+    m = len(alts)
+    base = rand_perm(rng, alts)
+    x = base[-1]
+    c = rng.randint(1, 20)
+    prof = []
+    left = c
+    while left > 0:                                # complete ballots ending in x, different beginnings
+        k = rng.randint(1, left)
+        left -= k
+        prof.append(([[a] for a in rand_perm(rng, base[:-1]) + [x]], k))
+    prof.append(([[x]], c))                        # x alone on c truncated ballots: exactly n/2 until depth m
+    extra = rng.randint(0, 1)
+    if extra and m >= 3:                           # one more voter for x, below the top, keeps x short of the quota
+        prof.append(([[base[0]], [x]] if rng.random() < 0.5 else [[base[1]]], 1))
+    rng.shuffle(prof)
+    return prof
+
+
 def generate(tier, seed):
     rng = random.Random(1000003 * seed + 14)
     out = gen_exhaustive(tier)
+    n = 600 if tier == "quick" else 8000
+    for i in range(n):
+        m = rng.choice([1, 2, 2, 3, 3, 4, 5, 6, 8])
+        alts = rng.sample(range(1, 40), m) if rng.random() < 0.3 else list(range(1, m + 1))
+        dt = rng.choice([0, 1])
+        out.append(both_case(dt, alts, half_profile(rng, dt, alts), gen="exact-half"))
+    n = 400 if tier == "quick" else 5000
+    for i in range(n):
+        m = rng.randint(2, 8)
+        alts = list(range(1, m + 1))
+        out.append(both_case(1, alts, last_depth_profile(rng, alts), gen="soi-majority-only-at-last-depth"))
+    n = 40 if tier == "quick" else 300             # single-alternative profiles, both rules, soc and soi
+    for i in range(n):
+        a = rng.randint(1, 99)
+        out.append(both_case(i % 2, [a], [([[a]], rng.choice([1, 2, 3, rng.randint(1, 50)]))], gen="single-alternative"))
     n = 3000 if tier == "quick" else 50000
     for i in range(n):
-        m = rng.choice([1, 1, 2, 2, 3, 3, 4, 4, 5, 5, 6, 7, 8])
+        m = 1 if rng.random() < 0.02 else rng.choice([2, 2, 3, 3, 4, 4, 5, 5, 6, 7, 8])
         alts = rng.sample(range(1, 40), m) if rng.random() < 0.3 else list(range(1, m + 1))
         dt = rng.choice([0, 0, 1, 1, 1])
         kind, prof = level_profile(rng, dt, alts)
@@ -188,6 +253,19 @@ def _depth(ip):
     return None
 
 
+def _exact_half_before(ip, d):
+    _, alts, n_alt, n_vot, prof = ip
+    last = n_alt if d is None else d - 1
+    for k in range(1, last + 1):
+        cnt = {}
+        for o, mu in prof:
+            for cl in o[:k]:
+                cnt[cl[0]] = cnt.get(cl[0], 0) + mu
+        if cnt and 2 * max(cnt.values()) == n_vot:
+            return True
+    return False
+
+
 def stats(c, r, m):
     ip = c["payload"]
     out = ["type=%s" % DT[ip[0]], "m=%d" % len(ip[1]), "ballots=%s" % (len(ip[4]) if len(ip[4]) <= 3 else ">3")]
@@ -196,6 +274,15 @@ def stats(c, r, m):
     if ip[0] in (0, 1):
         d = _depth(ip)
         out.append("quota reached at depth %s" % ("never" if d is None else (d if d <= 3 else ">3")))
+        n_vot, n_alt = ip[3], ip[2]
+        if n_vot % 2 == 0 and _exact_half_before(ip, d):
+            out.append("even n: best count exactly n/2 at a depth before the quota is reached")
+        if ip[0] == 1 and d is not None and d == n_alt and n_alt >= 2 and any(len(o) == n_alt for o, _ in ip[4]):
+            out.append("soi: strict majority only at the last depth m (complete ballot's last position)")
+        if ip[0] == 1 and len({len(o) for o, _ in ip[4]}) > 1:
+            out.append("soi: truncated ballots of different lengths")
+        if n_alt == 1:
+            out.append("single alternative (%s)" % DT[ip[0]])
     mm = m[0] if c["op"] == "c14.both" else [m[0]]
     names = NAMES if c["op"] == "c14.both" else [c["op"].split(".")[1]]
     for nm, mi in zip(names, mm):
